@@ -78,7 +78,8 @@ class Analysis:
         self.hseq_paths = {}      # fn name -> tuple field path of the sequence inside the returned value
         self.extra_h = {}         # fn name -> locals holding iterators over hash-ordered sequences
         self.fn_changed = False
-        self.param_summ = {}      # (fn name, param local) -> 'sens'|'ok'
+        self.param_summ = {}      # (fn name, param local) -> 'sens'|'ok'|'keyed'
+        self.keyarg_of = {}       # (fn name, bb of a call to a helper with a keyed summary) -> index of the argument selecting the slot
         self.sites = []
         self.n_creation = 0
 
@@ -95,6 +96,8 @@ class Analysis:
             res, why = 'sens', 'summary depth exceeded'
         else:
             roots = self._aliases(g, {pl})
+            keyed_params = set()
+            keyed_why = ''
             for c in g.calls:
                 if is_tracing(c.exp):
                     continue
@@ -106,7 +109,14 @@ class Analysis:
                     if not ty.startswith('&mut') and not g.ty.get(pl, '').startswith('&mut'):
                         continue
                     v, w = self._classify_mut_call(g, c, ai, l, depth + 1, in_loop_keys=None)
+                    if v == 'keyed' and (self.prog.resolve(c.callee, g.crate) or self.prog.resolve(c.decl, g.crate)) is not None:
+                        v, w = 'sens', w + ' (keyed effect of a nested helper: not summarised further)'
                     if v == 'sens':
+                        pk = self._slot_key_param(g, l, roots)
+                        if pk is not None:
+                            keyed_params.add(pk)      # lands in the slot `map.entry(<parameter pk>)`: keyed by that parameter
+                            keyed_why = '%s at %s' % (w, c.where())
+                            continue
                         res, why = 'sens', '%s at %s' % (w, c.where())
                         break
                 if res == 'sens':
@@ -123,9 +133,47 @@ class Analysis:
                     t = b['term']
                     if t and t['t'] == 'call' and t['dst']['l'] in roots and t['dst']['p']:
                         res, why = 'sens', 'stores the result of %s through the parameter at %s' % (short(t['callee']), g.where(t))
+            if res == 'ok' and keyed_params:
+                if len(keyed_params) == 1:
+                    res, why = 'keyed', keyed_why
+                    self.param_summ[(g.name, pl, 'keyarg')] = next(iter(keyed_params)) - 1
+                else:
+                    res, why = 'sens', keyed_why + ' (slots selected by several parameters)'
         self.param_summ[key] = res
         self.param_summ[(g.name, pl, 'why')] = why
         return res
+
+    def _slot_key_param(self, g, l, roots):
+        """the &mut place `l` of helper g is a slot of a keyed container reached through g's parameter, selected by a key that is
+        (a copy of) one other parameter of g: returns that parameter's local, else None"""
+        cur = l
+        seen = set()
+        while cur is not None and cur not in seen:
+            seen.add(cur)
+            d = g.single_def(cur)
+            if d is None:
+                return None
+            bb, idx, kind, node = d
+            if kind == 'stmt':
+                r = node['r']
+                if r['rv'] in ('ref', 'rawptr'):
+                    cur = r['pl']['l']
+                elif r['rv'] == 'use' and is_place(r['ops'][0]):
+                    cur = r['ops'][0]['pl']['l']
+                else:
+                    return None
+                continue
+            c = g.call_at[bb]
+            if c.short in ('unwrap', 'expect', 'deref_mut', 'as_mut', 'or_insert', 'or_insert_with', 'or_default', 'deref', 'unwrap_or_default'):
+                cur = c.arg_local(0)
+                continue
+            if c.short in ('get_mut', 'entry', 'index_mut') and re.search(r'(HashMap|BTreeMap)<', g.ty.get(c.arg_local(0), '') or '') and \
+                    c.arg_local(0) in roots and len(c.args) > 1:
+                org = mir.provenance(g, c.args[1], pass_through=KEY_PASS)
+                if len(org.params) == 1 and not org.binops and not [x for x in org.calls if x.short not in KEY_PASS]:
+                    return next(iter(org.params))
+            return None
+        return None
 
     def store_effect(self, fn, s):
         """a MIR store `place = rvalue` whose place is reached through outer mutable state"""
@@ -216,6 +264,10 @@ class Analysis:
         if g0 is not None:
             # crate-local callee (a helper that received the container): summary of the corresponding parameter
             res = self.param_effect(g0, ai + 1, depth)
+            if res == 'keyed':
+                self.keyarg_of[(fn.name, c.bb)] = self.param_summ.get((g0.name, ai + 1, 'keyarg'))
+                return 'keyed', 'callee %s updates the slot selected by its parameter %s (%s)' % (
+                    g0.name, self.param_summ.get((g0.name, ai + 1, 'keyarg')), self.param_summ.get((g0.name, ai + 1, 'why'), ''))
             if res == 'sens':
                 return 'sens', 'callee %s has an order-sensitive effect through parameter %d (%s)' % (
                     g0.name, ai, self.param_summ.get((g0.name, ai + 1, 'why'), ''))
@@ -253,6 +305,9 @@ class Analysis:
         if g is not None:
             # crate-local callee: summary of the corresponding parameter
             res = self.param_effect(g, ai + 1, depth)
+            if res == 'keyed':
+                self.keyarg_of[(fn.name, c.bb)] = self.param_summ.get((g.name, ai + 1, 'keyarg'))
+                return 'keyed', 'callee %s updates the slot selected by its parameter %s' % (g.name, self.param_summ.get((g.name, ai + 1, 'keyarg')))
             if res == 'sens':
                 return 'sens', 'callee %s has an order-sensitive effect through parameter %d (%s)' % (
                     g.name, ai, self.param_summ.get((g.name, ai + 1, 'why'), ''))
@@ -641,7 +696,7 @@ class Analysis:
                             not re.search(r'std::collections::(HashMap|BTreeMap)<', ty) and not self._result_read(fn, c):
                         effects.append(('ok', 'set.insert with the result unused (idempotent and commutative)', c.where()))
                         continue
-                    kv, kw = self.key_provenance(fn, c, body, elem, next_call)
+                    kv, kw = self.key_provenance(fn, c, body, elem, next_call, key_index=self.keyarg_of.get((fn.name, c.bb), 1))
                     effects.append((kv, '%s keyed by %s' % (w, kw), c.where()))
                 else:
                     effects.append((v, w, c.where()))
@@ -710,11 +765,13 @@ class Analysis:
             return None
         return None
 
-    def key_provenance(self, fn, c, body, elem, next_call=None):
-        """the key argument (arg 1) of a keyed map call inside a hash-ordered loop: element's own key or derived?"""
-        if len(c.args) < 2:
+    def key_provenance(self, fn, c, body, elem, next_call=None, key_index=1):
+        """the key argument (arg 1; for a helper with a keyed summary the argument it selects the slot by) of a keyed map call
+        inside a hash-ordered loop: element's own key or derived?"""
+        key_index = 1 if key_index is None else key_index
+        if len(c.args) <= key_index:
             return 'ok', 'no key'
-        a = c.args[1]
+        a = c.args[key_index]
         if a['k'] == 'const':
             return 'sens', 'a constant key (all elements hit one entry)'
         org = mir.provenance(fn, a, pass_through=KEY_PASS | {'unwrap', 'expect'})
